@@ -337,6 +337,7 @@ func runC18(w *W) {
 		c18Scenario{"pair open close (bag)", []string{"a", "b"}, [][2]string{{"a", "b"}}, []string{"open a svc", "adtick", "close a svc"}, 2, true},
 		c18Scenario{"chain open close (bag)", abc, chain, []string{"open a svc", "adtick", "close a svc"}, d, true},
 		c18Scenario{"chain open close reopen (bag)", abc, chain, []string{"open a svc", "adtick", "close a svc", "open a svc", "adtick"}, 1, true},
+		c18Scenario{"pair open close reopen with other tags (bag)", []string{"a", "b"}, [][2]string{{"a", "b"}}, []string{"open a svc", "adtick", "close a svc", "open a svc", "adtick"}, 2, true},
 		c18Scenario{"late joiner", []string{"a", "b", "c"}, [][2]string{{"a", "b"}}, []string{"open a svc", "adtick", "join b c", "adtick"}, d, false},
 		c18Scenario{"late joiner after close", []string{"a", "b", "c"}, [][2]string{{"a", "b"}}, []string{"open a svc", "adtick", "close a svc", "join b c", "adtick"}, d, false},
 	)
